@@ -510,16 +510,36 @@ Section Composition.
       cbn in H. subst q. now rewrite !fs_lookup_write_same.
   Qed.
 
-  Lemma nodupz_NoDup : forall l, nodupz l = true -> NoDup l.
+  (** *** the id list and its distinct ids *)
+  Lemma memz_In : forall x l, memz x l = true <-> In x l.
   Proof.
-    induction l as [|x l IH]; cbn; intros H; [constructor|].
-    apply andb_prop in H. destruct H as [H1 H2]. constructor; [|now apply IH].
-    intros Hin. assert (memz x l = true).
-    { clear - Hin. induction l as [|y l IH]; [destruct Hin|]. cbn. destruct Hin as [->|Hin].
-      - now rewrite Z.eqb_refl.
-      - rewrite IH by assumption. now rewrite orb_true_r. }
-    now rewrite H in H1.
+    induction l as [|y l IH]; cbn; [split; [discriminate|intros []]|].
+    rewrite orb_true_iff, IH, Z.eqb_eq. tauto.
   Qed.
+
+  Lemma distinct_ids_In : forall l x, In x (distinct_ids l) <-> In x l.
+  Proof.
+    induction l as [|y l IH]; intros x; cbn; [tauto|].
+    destruct (memz y l) eqn:E.
+    - rewrite IH. split; [now right|]. intros [<-|H]; [now apply memz_In|exact H].
+    - cbn. now rewrite IH.
+  Qed.
+
+  Lemma distinct_ids_NoDup : forall l, NoDup (distinct_ids l).
+  Proof.
+    induction l as [|y l IH]; cbn; [constructor|].
+    destruct (memz y l) eqn:E; [exact IH|]. constructor; [|exact IH].
+    rewrite distinct_ids_In, <- memz_In. now rewrite E.
+  Qed.
+
+  Lemma distinct_ids_id : forall l, NoDup l -> distinct_ids l = l.
+  Proof.
+    induction l as [|y l IH]; intros H; [reflexivity|]. inversion H as [|? ? Hnotin Hnd]; subst. cbn.
+    destruct (memz y l) eqn:E; [now apply memz_In in E|]. now rewrite IH.
+  Qed.
+
+  Lemma distinct_ids_idem : forall l, distinct_ids (distinct_ids l) = distinct_ids l.
+  Proof. intros. apply distinct_ids_id, distinct_ids_NoDup. Qed.
 
   Lemma NoDup_map_inj_on : forall A B (f : A -> B) l,
     NoDup l -> (forall x y, In x l -> In y l -> f x = f y -> x = y) -> NoDup (map f l).
@@ -597,45 +617,55 @@ Section Composition.
   Theorem cli_composition : forall (a : args) src fs0 fs',
     a_source a = Some src ->
     cli_run a fs0 = COk fs' ->
-    NoDup (a_ids a) /\
     (forall id, In id (a_ids a) -> exists path d,
         inject (a_target a) id = Some path /\
-        file_content (a_flags a) src (a_ids a) id (start_content (a_flags a) fs0 path) = COk d /\
+        file_content (a_flags a) src (distinct_ids (a_ids a)) id (start_content (a_flags a) fs0 path) = COk d /\
         fs_lookup path fs' = Some d) /\
     (forall q, (forall id, In id (a_ids a) -> inject (a_target a) id <> Some q) -> fs_lookup q fs' = fs_lookup q fs0).
   Proof.
     intros a src fs0 fs' Hsrc H. unfold Cli.Model.cli_run in H. rewrite Hsrc in H.
     destruct (a_tms_ok a); [|discriminate]. cbn [negb] in H.
-    destruct (nodupz (a_ids a)) eqn:End; [|discriminate]. cbn [negb] in H.
-    apply nodupz_NoDup in End.
-    destruct (cfoldM (init_target (a_flags a) (a_target a)) (a_ids a) (fs0, [])) as [[fs1 tgts0]|] eqn:Ei; [|discriminate].
+    cbv zeta in H.
+    assert (End := distinct_ids_NoDup (a_ids a)). assert (HIn := distinct_ids_In (a_ids a)).
+    remember (distinct_ids (a_ids a)) as ids eqn:Eids. clear Eids.
+    destruct (cfoldM (init_target (a_flags a) (a_target a)) ids (fs0, [])) as [[fs1 tgts0]|] eqn:Ei; [|discriminate].
     cbn [cbind] in H.
     destruct (init_targets_spec _ _ _ _ _ _ _ End Ei) as [Hall [Ht0 Hq]]. cbn [app] in Ht0.
     destruct (cmapM (create_in (map fst src)) tgts0) as [tgts1|] eqn:Ec; [|discriminate]. cbn [cbind] in H.
-    destruct (cfoldM (run_table (a_flags a) (a_ids a)) src tgts1) as [tgts2|] eqn:Er; [|discriminate]. cbn [cbind] in H.
+    destruct (cfoldM (run_table (a_flags a) ids) src tgts1) as [tgts2|] eqn:Er; [|discriminate]. cbn [cbind] in H.
     injection H as <-.
     apply cmapM_Forall2 in Ec. apply run_tables_per_target in Er.
     (* every final target: same id and path as opened, content = the per-file composition *)
-    assert (HF := targets_compose (a_flags a) src (a_ids a) fs0 (a_target a) (a_ids a) tgts1 tgts2).
+    assert (HF := targets_compose (a_flags a) src ids fs0 (a_target a) ids tgts1 tgts2).
     subst tgts0. specialize (HF Ec Er).
-    assert (Hpaths : map tpath_of tgts2 = map (tpath (a_target a)) (a_ids a)).
+    assert (Hpaths : map tpath_of tgts2 = map (tpath (a_target a)) ids).
     { clear - HF. induction HF as [|id t2 l l2 [Ht _] _ IH]; [reflexivity|]. cbn [map]. rewrite IH. f_equal. now rewrite Ht. }
-    split; [exact End|]. split.
-    - intros id Hin.
+    split.
+    - intros id Hin. apply HIn in Hin.
       destruct (inject (a_target a) id) as [path|] eqn:Einj; [|now apply Hall in Hin].
       assert (Hp : tpath (a_target a) id = path) by (unfold tpath; now rewrite Einj).
       assert (Hex : exists t2, In t2 tgts2 /\ t2 = (id, path, snd t2) /\
-                 file_content (a_flags a) src (a_ids a) id (start_content (a_flags a) fs0 path) = COk (snd t2)).
+                 file_content (a_flags a) src ids id (start_content (a_flags a) fs0 path) = COk (snd t2)).
       { destruct (Forall2_in_l _ _ _ _ _ id HF Hin) as [t2 [Hin2 [Ht Hc]]]. rewrite Hp in *. eauto. }
       destruct Hex as [t2 [Hin2 [Ht2 Hc2]]]. exists path, (snd t2). split; [reflexivity|]. split; [exact Hc2|].
       apply (write_back_lookup tgts2 fs1 id).
       + rewrite Hpaths. apply NoDup_map_inj_on; [exact End|]. now apply tpath_inj_on.
       + now rewrite <- Ht2.
     - intros q Hnot.
-      assert (Hq' : ~ In q (map (tpath (a_target a)) (a_ids a))).
-      { intros Hin. apply in_map_iff in Hin. destruct Hin as [id [Hid Hin]]. apply (Hnot id Hin).
+      assert (Hq' : ~ In q (map (tpath (a_target a)) ids)).
+      { intros Hin. apply in_map_iff in Hin. destruct Hin as [id [Hid Hin]]. apply (Hnot id (proj1 (HIn id) Hin)).
         unfold tpath in Hid. destruct (inject (a_target a) id) eqn:E; [congruence|exfalso; exact (Hall id Hin E)]. }
       rewrite write_back_other by (now rewrite Hpaths). now apply Hq.
+  Qed.
+
+  (** a list that names an id more than once is the run on its distinct ids: one target (one file) per distinct id *)
+  Theorem duplicate_ids_one_file_each : forall (a : args) fs0,
+    NoDup (distinct_ids (a_ids a)) /\
+    (forall id, In id (distinct_ids (a_ids a)) <-> In id (a_ids a)) /\
+    cli_run a fs0 = cli_run (MkArgs (a_tms_ok a) (a_source a) (a_target a) (distinct_ids (a_ids a)) (a_flags a)) fs0.
+  Proof.
+    intros a fs0. split; [apply distinct_ids_NoDup|]. split; [apply distinct_ids_In|].
+    unfold Cli.Model.cli_run. cbn [a_tms_ok a_source a_target a_ids a_flags]. now rewrite distinct_ids_idem.
   Qed.
 
   (** *** overwrite_forgets: with -overwrite the target files do not depend on what was there *)
@@ -657,12 +687,12 @@ Section Composition.
     intros a fs0 fs0' fs1 Ho H. unfold Cli.Model.cli_run in *.
     destruct (a_tms_ok a); [|discriminate]. cbn [negb] in *.
     destruct (a_source a) as [src|]; [|discriminate].
-    destruct (nodupz (a_ids a)); [|discriminate]. cbn [negb] in *.
-    destruct (cfoldM (init_target (a_flags a) (a_target a)) (a_ids a) (fs0, [])) as [[fsa tgts0]|] eqn:Ei; [|discriminate].
+    cbv zeta in *.
+    destruct (cfoldM (init_target (a_flags a) (a_target a)) (distinct_ids (a_ids a)) (fs0, [])) as [[fsa tgts0]|] eqn:Ei; [|discriminate].
     cbn [cbind] in H.
     destruct (init_targets_overwrite _ _ _ _ fs0' _ _ _ Ho Ei) as [fsb Ei']. rewrite Ei'. cbn [cbind].
     destruct (cmapM (create_in (map fst src)) tgts0) as [tgts1|]; [|discriminate]. cbn [cbind] in *.
-    destruct (cfoldM (run_table (a_flags a) (a_ids a)) src tgts1) as [tgts2|]; [|discriminate]. cbn [cbind] in *.
+    destruct (cfoldM (run_table (a_flags a) (distinct_ids (a_ids a))) src tgts1) as [tgts2|]; [|discriminate]. cbn [cbind] in *.
     eauto.
   Qed.
 
@@ -679,8 +709,8 @@ Section Composition.
     assert (Hsrc : exists src, a_source a = Some src).
     { unfold Cli.Model.cli_run in H. destruct (a_tms_ok a); [|discriminate]. destruct (a_source a); [eauto|discriminate]. }
     destruct Hsrc as [src Hsrc].
-    destruct (cli_composition a src fs0 fs1 Hsrc H) as [_ [Hc _]].
-    destruct (cli_composition a src fs0' fs1' Hsrc H') as [_ [Hc' _]].
+    destruct (cli_composition a src fs0 fs1 Hsrc H) as [Hc _].
+    destruct (cli_composition a src fs0' fs1' Hsrc H') as [Hc' _].
     destruct (Hc id Hin) as [p1 [d1 [Hp1 [Hf1 Hl1]]]]. destruct (Hc' id Hin) as [p2 [d2 [Hp2 [Hf2 Hl2]]]].
     rewrite Hinj in Hp1, Hp2. injection Hp1 as <-. injection Hp2 as <-.
     unfold start_content in Hf1, Hf2. rewrite Ho in Hf1, Hf2. rewrite Hf1 in Hf2. injection Hf2 as <-.
